@@ -94,6 +94,19 @@ def gen_spec(rng):
                         continue
                     claims.append(ax)
                     proofs.append(name)
+        if root and proofs:
+            r = rng.random()
+            if r < 0.25:
+                # MORE declared claims than proof expressions (the surplus must still be published;
+                # `verify` must then reject: claims left unproved)
+                proofs = proofs[:rng.randrange(1, len(proofs))] if len(proofs) > 1 else proofs
+                extra = G.gen_pat(rng, 1, cfg)
+                if G.expand(extra) not in [G.expand(x) for x in claims]:
+                    claims.append(extra)
+                info['more_claims'] = len(claims) - len(proofs)
+            elif r < 0.32:
+                proofs.append(rng.choice(['p1', 'p2', 'p3']))     # FEWER claims than proofs
+                info['fewer_claims'] = True
         specs.append('|'.join([pats_txt(ctor), pats_txt(added), pats_txt(claims),
                                ','.join(str(s) for s in subs) or '-', ';'.join(proofs) or '-']))
         mods_axioms.append(subs)
@@ -153,7 +166,7 @@ def run(tier, seed):
     cases = []
     for path in sorted(glob.glob(os.path.join(CORPUS, '*.json'))):
         w = json.load(open(path))
-        cases.append((w['specs'], dict(corpus=os.path.basename(path))))
+        cases.append((w['specs'], dict(w.get('info', {}), corpus=os.path.basename(path))))
     for _ in range(n):
         cases.append(gen_spec(rng))
     lines = ['MOD ' + ' '.join(s) for s, _ in cases]
@@ -278,7 +291,12 @@ def run(tier, seed):
             if got_cl != want_cl:
                 oracle_fail.append((f'claims-differ:{tag}', 'published claims differ from the declared claims',
                                     dict(request=line, table=tbl, published=got_cl[:40], declared=want_cl[:40])))
-            if rv != 'ACCEPT' and w in (0, None) and not info.get('proofs_stripped'):
+            unproved = info.get('more_claims', 0) > 0
+            if unproved and rv == 'ACCEPT':
+                oracle_fail.append((f'verify-accepts-with-unproved-claims:{tag}',
+                                    'more claims declared than proofs, yet the three files verify: a declared claim is not in the claim file',
+                                    dict(request=line, answer=o[:400], declared_claims=want_cl)))
+            if rv != 'ACCEPT' and w in (0, None) and not info.get('proofs_stripped') and not unproved:
                 oracle_fail.append((f'verify-rejects:{tag}', 'the three files are not accepted by verify (symbol numbering across files?)',
                                     dict(request=line, answer=o[:400])))
             kinds.append(f'published-w{w}' if w else 'published')
@@ -290,7 +308,7 @@ def run(tier, seed):
                                 dict(request=line, off=decoded[0], on=decoded[1])))
         nontrivial = bool(decl_ax or decl_cl) and any(k.startswith(('published', 'refused:ValueError')) for k in kinds)
         R.case(line, nontrivial, '/'.join(kinds) or 'none')
-        for key in ('big', 'diamond', 'dup', 'notdup', 'added_dup', 'proofs_stripped'):
+        for key in ('big', 'diamond', 'dup', 'notdup', 'added_dup', 'proofs_stripped', 'more_claims', 'fewer_claims'):
             if info.get(key):
                 R.hist['feature:' + key] = R.hist.get('feature:' + key, 0) + 1
         R.hist[f'mods-{len(mods)}'] = R.hist.get(f'mods-{len(mods)}', 0) + 1
